@@ -28,6 +28,9 @@ enum Truth {
     Mapping { key: usize, value: usize },
     DynArray { element: usize },
     FixedArray { element: usize, length: u64 },
+    /// A packed word: spans (class, offset, size) of word classes with known
+    /// widths, the first at offset 0.
+    Packed { spans: Vec<(usize, usize, usize)> },
 }
 
 /// Usages at or below `u` in the documented order (`WordUse::merge`).
@@ -75,6 +78,8 @@ pub struct Generated {
     /// The class that received a contradictory judgement, if any.
     pub target:   Option<usize>,
     pub injected: Option<String>,
+    pub packed_classes: usize,
+    pub pushed_words:   usize,
 }
 
 fn depth(truths: &[Truth], c: usize) -> usize {
@@ -82,6 +87,7 @@ fn depth(truths: &[Truth], c: usize) -> usize {
         Truth::Word { .. } | Truth::DynBytes => 1,
         Truth::Mapping { key, value } => 1 + depth(truths, *key).max(depth(truths, *value)),
         Truth::DynArray { element } | Truth::FixedArray { element, .. } => 1 + depth(truths, *element),
+        Truth::Packed { spans } => 1 + spans.iter().map(|s| depth(truths, s.0)).max().unwrap_or(0),
     }
 }
 
@@ -116,7 +122,28 @@ pub fn generate(r: &mut Rng, contradictory: bool) -> Generated {
                 }
                 0
             };
-            match r.below(4) {
+            // Word classes of known width below a full word can be packed.
+            let packable: Vec<(usize, usize)> = truths
+                .iter()
+                .enumerate()
+                .filter_map(|(k, t)| match t {
+                    Truth::Word { width: Some(w), .. } if *w <= 200 => Some((k, *w)),
+                    _ => None,
+                })
+                .collect();
+            let roll = if packable.is_empty() { r.below(4) } else { r.below(6) };
+            match roll {
+                4 | 5 => {
+                    let (k0, w0) = *r.pick(&packable);
+                    let mut spans = vec![(k0, 0usize, w0)];
+                    if r.chance(1, 2) {
+                        let (k1, w1) = *r.pick(&packable);
+                        if w0 + w1 <= 256 {
+                            spans.push((k1, w0, w1));
+                        }
+                    }
+                    Truth::Packed { spans }
+                }
                 0 | 1 => Truth::Mapping {
                     key:   pick(r, &truths),
                     value: pick(r, &truths),
@@ -142,6 +169,8 @@ pub fn generate(r: &mut Rng, contradictory: bool) -> Generated {
     }
     let mut judgements: Vec<(usize, Ev)> = Vec::new();
     let mut emitted: Vec<Vec<Ev>> = vec![Vec::new(); n_classes];
+    let mut pushed_words = 0usize;
+    let packed_classes = truths.iter().filter(|t| matches!(t, Truth::Packed { .. })).count();
     // A component variable of class k: an existing one, or a fresh one equated
     // to an existing one.
     let component = |r: &mut Rng, k: usize, class_of: &mut Vec<usize>, vars_of: &mut Vec<Vec<usize>>, judgements: &mut Vec<(usize, Ev)>| -> usize {
@@ -208,6 +237,28 @@ pub fn generate(r: &mut Rng, contradictory: bool) -> Generated {
                         element: component(r, element, &mut class_of, &mut vars_of, &mut judgements),
                         length,
                     },
+                    Truth::Packed { spans } => {
+                        // Evidence about the first field stated on the packed
+                        // word itself: a word of a special usage whose width is
+                        // the first span's is the library's documented way of
+                        // typing that field (merge pushes it onto the span).
+                        let (k0, _, w0) = spans[0];
+                        if let Truth::Word { usage, .. } = truths[k0] {
+                            if r.chance(1, 2) && matches!(usage, WordUse::Address | WordUse::Bool | WordUse::SignedNumeric | WordUse::Selector | WordUse::Function) {
+                                let pushed = Ev::word(Some(w0), usage);
+                                pushed_words += 1;
+                                emitted[k0].push(pushed.clone());
+                                judgements.push((holder, pushed));
+                            }
+                        }
+                        Ev::Packed {
+                            spans:     spans
+                                .iter()
+                                .map(|(k, o, w)| (component(r, *k, &mut class_of, &mut vars_of, &mut judgements), *o, *w))
+                                .collect(),
+                            is_struct: false,
+                        }
+                    }
                 }
             };
             emitted[c].push(e.clone());
@@ -279,6 +330,31 @@ pub fn generate(r: &mut Rng, contradictory: bool) -> Generated {
                     2 => Ev::word(Some(256), WordUse::UnsignedNumeric),
                     _ => Ev::word(Some(160), WordUse::Address),
                 }),
+                Ev::FixedArray { length, .. } if r.chance(1, 2) => {
+                    // a fixed array of a different length (the unit tests pin
+                    // this as a conflict); lengths are 256-bit quantities
+                    let element = fresh(&mut class_of);
+                    Some(match r.below(4) {
+                        0 => Ev::FixedArray {
+                            element,
+                            length: *length + 1,
+                        },
+                        1 => Ev::FixedArrayBig {
+                            element,
+                            hi: 1,
+                            lo: *length,
+                        },
+                        2 => Ev::FixedArrayBig {
+                            element,
+                            hi: 1 << 32,
+                            lo: *length,
+                        },
+                        _ => Ev::FixedArray {
+                            element,
+                            length: *length + (1 << 32),
+                        },
+                    })
+                }
                 Ev::DynArray { .. } | Ev::FixedArray { .. } => Some(Ev::Mapping {
                     key:   fresh(&mut class_of),
                     value: fresh(&mut class_of),
@@ -306,6 +382,8 @@ pub fn generate(r: &mut Rng, contradictory: bool) -> Generated {
         },
         target,
         injected,
+        packed_classes,
+        pushed_words,
     }
 }
 
@@ -324,6 +402,11 @@ fn downstream(model: &Model, c: usize, out: &mut BTreeSet<usize>) {
             downstream(model, *value, out);
         }
         Truth::DynArray { element } | Truth::FixedArray { element, .. } => downstream(model, *element, out),
+        Truth::Packed { spans } => {
+            for s in spans {
+                downstream(model, s.0, out);
+            }
+        }
         _ => {}
     }
 }
@@ -354,6 +437,7 @@ fn expected_kind(model: &Model, c: usize) -> String {
         Truth::Mapping { .. } => "Mapping".into(),
         Truth::DynArray { .. } => "DynArray".into(),
         Truth::FixedArray { length, .. } => format!("FixedArray[{length}]"),
+        Truth::Packed { spans } => format!("Packed[{}]", spans.iter().map(|(_, o, w)| format!("{o}+{w}")).collect::<Vec<_>>().join(",")),
     }
 }
 
@@ -430,6 +514,13 @@ pub fn compare(g: &Generated, o: &UnifyOutcome) -> Option<(String, Value)> {
                 (TE::DynamicArray { element }, Truth::DynArray { element: me }) | (TE::FixedArray { element, .. }, Truth::FixedArray { element: me, .. }) => {
                     skip.contains(me) || o.same_class(evidence::tv_index(*element), rep_of(model, *me))
                 }
+                (TE::Packed { types, .. }, Truth::Packed { spans }) => {
+                    types.len() == spans.len()
+                        && types
+                            .iter()
+                            .zip(spans.iter())
+                            .all(|(t, (mk, _, _))| skip.contains(mk) || o.same_class(evidence::tv_index(t.typ), rep_of(model, *mk)))
+                }
                 _ => true,
             };
             if !comp_ok {
@@ -478,7 +569,7 @@ impl Check for C15Check {
         CheckInfo {
             id: "C15",
             level: "exploration",
-            rule: "case = one hidden ground-truth typing over 2..10 classes (words of every usage and widths {?,8,32,64,128,160,256}, dynamic bytes, mappings, dynamic and fixed arrays, nesting <= 3) with 1..3 variables per class; compatible sets emit, per class, 1..5 weakenings of the true type (usage at or below it in the documented order, width kept or dropped, Any, the same constructor over existing or fresh-but-equated component variables) plus a spanning tree of equalities; contradictory sets (every second case) add exactly one judgement from the property's list to one class (a different known width, an incompatible usage, a mapping against an array or a sized word); each set is unified under 8 schedules and compared with the reference model. evaluations = unifier runs; non-trivial = the run folded at least one class with >= 2 pieces; distinct = distinct (set, fold-order digest), counted with a hash set",
+            rule: "case = one hidden ground-truth typing over 2..10 classes (words of every usage and widths {?,8,32,64,128,160,256}, dynamic bytes, mappings, dynamic and fixed arrays, packed words of one or two sized fields, nesting <= 3) with 1..3 variables per class; compatible sets emit, per class, 1..5 weakenings of the true type (usage at or below it in the documented order, width kept or dropped, Any, the same constructor over existing or fresh-but-equated component variables) plus a spanning tree of equalities; contradictory sets (every second case) add exactly one judgement from the property's list to one class (a different known width, an incompatible usage, a mapping against an array or a sized word, a fixed array of a different 256-bit length); each set is unified under 8 schedules and compared with the reference model. evaluations = unifier runs; non-trivial = the run folded at least one class with >= 2 pieces; distinct = distinct (set, fold-order digest), counted with a hash set",
             assumptions: &[
                 "reference model: congruence closure over declared equalities + the word lattice documented at WordUse::merge (bytes below everything; numeric below unsigned, signed, address; unsigned below address; bool, selector, function only above bytes); known width beats unknown",
                 "dynamic array vs word and dynamic bytes vs word are not injected as contradictions: the code treats them as compatible on purpose and the property does not list them",
@@ -508,6 +599,15 @@ impl Check for C15Check {
             }
         } else {
             res.probe("compatible_sets");
+        }
+        if g.packed_classes > 0 {
+            res.probe("sets_with_a_packed_class");
+        }
+        if g.pushed_words > 0 {
+            res.probe("sets_with_a_word_pushed_onto_a_packed_field");
+        }
+        if g.injected.as_deref().map_or(false, |k| k.starts_with("FixedArray")) {
+            res.fault("contradictory_array_length_injected");
         }
         for sched in schedules(seed) {
             let o = run_unify(&g.ev, &sched, &UnifyOpts::default());
